@@ -69,6 +69,7 @@ type c09Msg struct {
 	na, nn, nx int
 	shapes     []int // na+nn+nx shape numbers in section order
 	opt        int   // 0 none, 1 OPT last in additional, 2 OPT first in additional
+	optKind    int   // 0 empty OPT; 1 OPT built in memory with NSID + COOKIE options (Hdr.Rdlength 0); 2 OPT without options whose Hdr.Rdlength is stale (as after unpacking and stripping the options)
 	compress   bool
 	tc         bool
 	tsig       bool // TSIG as very last additional record
@@ -91,7 +92,7 @@ func (d c09Msg) String() string {
 			legend = append(legend, c09ShapeNames[x]+" = "+strings.ReplaceAll(c09RR(x, p).String(), "\t", " "))
 		}
 	}
-	return fmt.Sprintf("question %s IN A; answer=%s authority=%s additional=%s opt=%s (empty OPT, UDP size 1232) Compress=%v Truncated=%v tsig=%v; shapes: %s",
+	return fmt.Sprintf("question %s IN A; answer=%s authority=%s additional=%s opt=%s (UDP size 1232; kind: see optKind) Compress=%v Truncated=%v tsig=%v; shapes: %s",
 		c09Q, nm(d.shapes[:d.na]), nm(d.shapes[d.na:d.na+d.nn]), nm(d.shapes[d.na+d.nn:]),
 		[]string{"none", "last", "first"}[d.opt], d.compress, d.tc, d.tsig, strings.Join(legend, " | "))
 }
@@ -117,6 +118,12 @@ func c09Build(d c09Msg) *dns.Msg {
 	newOPT := func() dns.RR {
 		o := &dns.OPT{Hdr: dns.RR_Header{Name: ".", Rrtype: dns.TypeOPT}}
 		o.SetUDPSize(1232)
+		switch d.optKind {
+		case 1:
+			o.Option = []dns.EDNS0{&dns.EDNS0_NSID{Code: dns.EDNS0NSID, Nsid: "6e73312e6578616d706c65"}, &dns.EDNS0_COOKIE{Code: dns.EDNS0COOKIE, Cookie: "0102030405060708"}}
+		case 2:
+			o.Hdr.Rdlength = 27
+		}
 		return o
 	}
 	if d.opt == 2 {
@@ -448,6 +455,29 @@ func c09Spaces(c *fw.Ctx) {
 								for f := 0; f < 4; f++ {
 									d := c09Msg{na: na, nn: nn, nx: nx, shapes: v, opt: opt, compress: f&1 != 0, tc: f&2 != 0}
 									emit(func(r *fw.R) { c09Reply(r, d) })
+								}
+							}
+						}
+					}
+				}
+			}
+		})
+
+	c.Space("replies-opt-options", tsigRule+"; × OPT {last, first} carrying NSID+COOKIE options built in memory (Hdr.Rdlength 0), or no options but a stale Hdr.Rdlength (as after unpacking and stripping options) × Compress × Truncated; every size as in 'replies'; non-trivial: some size drops a record", true,
+		func(emit func(func(*fw.R))) {
+			for na := 0; na <= maxSec; na++ {
+				for nn := 0; nn <= maxSec; nn++ {
+					for nx := 0; nx <= maxSec; nx++ {
+						for _, v := range vectors(na+nn+nx, false) {
+							for opt := 1; opt <= 2; opt++ {
+								if opt == 2 && nx == 0 {
+									continue
+								}
+								for kind := 1; kind <= 2; kind++ {
+									for f := 0; f < 4; f++ {
+										d := c09Msg{na: na, nn: nn, nx: nx, shapes: v, opt: opt, optKind: kind, compress: f&1 != 0, tc: f&2 != 0}
+										emit(func(r *fw.R) { c09Reply(r, d) })
+									}
 								}
 							}
 						}
